@@ -126,16 +126,30 @@ def field_table(chk, pid, I, C, cfg, struct, p, kind, offw, term, o, cache):
     else:
         rng = IntSet.range(0, (1 << w) - 1)
     extras = leaves[0][3]
-    argsets = [rng]
+    ci = leaves[0][4] if len(leaves[0]) > 4 else 0
+    others = []
     for e in extras:
         if e == ("bits", 0, 6):
-            argsets.append(o.tset())
+            others.append(o.tset())
         else:
             chk.ob(False, "%s/extra-arg/%s/%s/%s" % (pid, struct, p, e), "%s.%s [%s]: decoder also depends on %r" % (struct, p, cfg, e))
             return None
-    key = (cfg, leaf, tuple(s.iv for s in argsets))
+    argsets = others[:ci] + [rng] + others[ci:]
+    key = (cfg, leaf, tuple(s.iv for s in argsets), ci)
     if key not in cache:
-        cache[key] = leaf_table(I, C, leaf, argsets)
+        rows = leaf_table(I, C, leaf, argsets)
+        if ci != 0:
+            # present the table with the decoded value as argument 0
+            def ren(t):
+                if t == ("sym", "arg%d" % ci):
+                    return ("sym", "arg0")
+                if t == ("sym", "arg0"):
+                    return ("sym", "arg%d" % ci)
+                if isinstance(t, tuple):
+                    return tuple(ren(x) for x in t)
+                return t
+            rows = [((sets[ci],) + tuple(x for i, x in enumerate(sets) if i != ci), ren(term), s2, rv) for (sets, term, s2, rv) in rows]
+        cache[key] = rows
     return cache[key], rng, leaf
 
 
